@@ -126,6 +126,7 @@ pub struct Ctx {
     pub nshards: usize,
     pub only: Option<String>,
     pub targets: Option<Vec<String>>,
+    pub gens: Option<Vec<String>>,
     pub from_seq: u64,
     pub verbose: bool,
     pub variant: String,
@@ -154,7 +155,7 @@ pub fn glob(pat: &str, s: &str) -> bool {
 
 impl Ctx {
     pub fn new(prop: &str, tier: Tier, seed: u64, shard: usize, nshards: usize, out: Option<File>) -> Ctx {
-        Ctx { prop: prop.to_string(), tier, seed, pinned: false, shard, nshards, only: None, targets: None, from_seq: 0, verbose: false,
+        Ctx { prop: prop.to_string(), tier, seed, pinned: false, shard, nshards, only: None, targets: None, gens: None, from_seq: 0, verbose: false,
               variant: "fast".into(), out, seq: 0, start: Instant::now(), budget: Duration::from_secs(if tier == Tier::Quick { 100 } else { 1500 }),
               samples: HashMap::new(), stats: BTreeMap::new(), executed: 0, scale: 1.0 }
     }
@@ -183,6 +184,7 @@ impl Ctx {
         if let Some(o) = &self.only { if *o != key { return; } }
         else {
             if !self.wants(target) { return; }
+            if let Some(gs) = &self.gens { if !gs.iter().any(|g| glob(g, gen)) { return; } }
             let seq = self.seq; self.seq += 1;
             if (seq as usize) % self.nshards != self.shard { return; }
             if seq < self.from_seq { return; }
@@ -196,7 +198,7 @@ impl Ctx {
         c.hash = fnv1a(0, target.as_bytes()); c.hash = fnv1a(c.hash, gen.as_bytes());
         self.emit(json!({"t": "begin", "n": seq, "key": key, "target": target}));
         CASE_START_WALL.store(wall_ms(), Ordering::SeqCst);
-        CASE_START_CPU_MS.store(process_cpu_ms(), Ordering::SeqCst);
+        CASE_START_CPU_MS.store(if cfg!(miri) { 0 } else { process_cpu_ms() }, Ordering::SeqCst);
         let t0 = Instant::now();
         let _ = take_panic();
         let r = catch_unwind(AssertUnwindSafe(|| f(&mut c)));
@@ -236,7 +238,7 @@ pub fn start_watchdog(out_path: Option<String>) {
         std::thread::sleep(Duration::from_millis(250));
         let s = CASE_START_CPU_MS.load(Ordering::SeqCst);
         if s == u64::MAX { continue; }
-        let cpu = process_cpu_ms().saturating_sub(s);
+        let cpu = if cfg!(miri) { 0 } else { process_cpu_ms().saturating_sub(s) };
         let wall = wall_ms().saturating_sub(CASE_START_WALL.load(Ordering::SeqCst));
         let over_cpu = cpu > CASE_CPU_LIMIT_MS.load(Ordering::SeqCst);
         let over_wall = wall > CASE_WALL_LIMIT_MS.load(Ordering::SeqCst);
